@@ -158,6 +158,9 @@ pub struct QuerySpec {
     /// query is written 5 ms after the response to the previous one arrived
     #[serde(default)]
     pub conn: Option<(u32, u8)>,
+    /// hostile TCP framing: the two-octet length prefix to write instead of the true length
+    #[serde(default)]
+    pub tcp_prefix: Option<u16>,
 }
 
 #[derive(Clone, Debug, Serialize, Deserialize)]
@@ -684,6 +687,7 @@ pub fn generate(seed: u64, g: &GenB) -> PlanB {
             ttl_boundary: None,
             tcp_idle_off: None,
             conn: None,
+            tcp_prefix: None,
         });
     }
     if faulty && !p.queries.is_empty() {
@@ -955,6 +959,7 @@ pub fn generate_flood(seed: u64, cookie: bool) -> PlanB {
         ttl_boundary: None,
             tcp_idle_off: None,
             conn: None,
+            tcp_prefix: None,
     };
     let mut port = 1024u16;
     let mut next_port = || {
@@ -1134,6 +1139,17 @@ fn add_hostile(p: &mut PlanB, r: &mut Rng) {
                 if r.chance(0.1) {
                     let n = *r.pick(&[0usize, 1, 11, 12, 13, 100]);
                     h.raw = Some(r.bytes(n));
+                }
+                {
+                    /* over TCP, sometimes with a length prefix that lies */
+                    let mut k = Rng::new(h.ans.seed ^ i as u64, "hostile-tcp-framing");
+                    if k.chance(0.35) {
+                        h.tcp = true;
+                        let len = h.raw.as_ref().map(|b| b.len()).unwrap_or(0) as u16;
+                        if k.chance(0.7) {
+                            h.tcp_prefix = Some(*k.pick(&[0u16, 1, 2, 11, 12, len.saturating_sub(1), len.saturating_add(1), len.saturating_add(100), 65535]));
+                        }
+                    }
                 }
             }
             1 => {
